@@ -573,3 +573,33 @@ func H12Long() {
 	vndAssert(GeoMean(append([]float64{-1}, xs...)) != GeoMean(append([]float64{-1}, xs...)), "geometric-mean-of-a-non-positive-value-is-nan")
 	vndObserveF64("gm", got)
 }
+
+// H12Density: the t density on a solver-chosen member of a family of degrees of freedom
+// (1 ... 1e5) and arguments: finite, positive, even, decreasing away from 0, and in
+// agreement with the distribution function (Simpson's rule over [a, a+1/4] against the
+// difference of CDF values, 1e-6). Concrete executions.
+func H12Density() {
+	v := []float64{1, 2.5, 7, 30, 171, 343, 1000, 1e5}[vndChoice("v", 8)]
+	a := []float64{0, 0.25, 1, 3}[vndChoice("a", 4)]
+	d := TDist{v}
+	p0, p1 := d.PDF(a), d.PDF(a+0.25)
+	vndReach("h12:density")
+	vndAssert(p0 > 0 && !math.IsInf(p0, 0) && p0 == p0, "density-is-positive-and-finite")
+	vndAssert(d.PDF(-a) == p0, "density-is-even")
+	vndAssert(p1 <= p0, "density-decreases-away-from-zero")
+	n := 16
+	h := 0.25 / float64(n)
+	sum := d.PDF(a) + d.PDF(a+0.25)
+	for i := 1; i < n; i++ {
+		w := 2.0
+		if i%2 == 1 {
+			w = 4
+		}
+		sum += w * d.PDF(a+float64(i)*h)
+	}
+	integral := sum * h / 3
+	vndAssert(math.Abs(integral-(d.CDF(a+0.25)-d.CDF(a))) <= 1e-6, "distribution-function-agrees-with-the-integral-of-the-density")
+	sd := NormalDist{Mu: 0, Sigma: 1}
+	vndAssert(math.Abs(sd.CDF(a)+sd.CDF(-a)-1) <= 1e-12 && sd.CDF(a) >= 0.5 && sd.CDF(a) <= 1, "normal-distribution-function-reflects")
+	vndAssert(math.Abs(sd.CDF(sd.InvCDF(0.025+a/8))-(0.025+a/8)) <= 1e-9, "normal-inverse-inverts")
+}
